@@ -220,12 +220,33 @@ private:
     mem_cache_entry():storage(nullptr){}
     mem_cache_entry(double* p, uint8_t o):storage(p),offset(o){}
   };
-  ///A cache of previously used backing storage blocks
+  ///The caches of previously used backing storage blocks, one per dimension.
+  ///Whatever is still cached is released when the set is destroyed, which is
+  ///when the owning thread ends (or at program exit if the cache is shared).
+  struct storage_cache_set{
+    detail::cache<mem_cache_entry,32> caches[SQUIDS_MAX_HILBERT_DIM+1];
+    storage_cache_set(){ storage_cache_usable=true; }
+    ~storage_cache_set(){
+      storage_cache_usable=false; //vectors destroyed later must not cache their storage
+      for(auto& c : caches){
+        mem_cache_entry entry;
+        while((entry=c.get()).storage)
+          delete[] (entry.storage-entry.offset);
+      }
+    }
+    detail::cache<mem_cache_entry,32>& operator[](unsigned int dim){ return(caches[dim]); }
+  };
+  ///Whether this thread's cache set exists (it has been created and not yet destroyed)
+  static
+  #ifdef SQUIDS_THREAD_LOCAL
+  SQUIDS_THREAD_LOCAL
+  #endif
+  bool storage_cache_usable;
   static
   #ifdef SQUIDS_THREAD_LOCAL
   SQUIDS_THREAD_LOCAL //one cache per thread if supported
   #endif
-  detail::cache<mem_cache_entry,32> storage_cache[SQUIDS_MAX_HILBERT_DIM+1];
+  storage_cache_set storage_cache;
 #endif
   
   ///A helper function which tries to put a memory block into the cache rather
@@ -233,7 +254,7 @@ private:
   void deallocate_mem(){
 #if SQUIDS_USE_STORAGE_CACHE
     bool cached=false;
-    if(((intptr_t)(components+dim%2))%32 == 0) //only try to save aligned storage
+    if(storage_cache_usable && ((intptr_t)(components+dim%2))%32 == 0) //only try to save aligned storage
       cached=storage_cache[dim].insert(mem_cache_entry{components,ptr_offset});
     if(!cached)
 #endif
